@@ -686,8 +686,91 @@ func c09e(c *Ctx) {
 
 // ---- C10 -----------------------------------------------------------------------------------
 
+// c10aSiblingCounters: the argument loop is not the only place where the parser counts nested
+// brackets (the comparison value of var() is another). Every such counter agrees with it: the
+// count goes up where the token at hand — the current token of the loop, not a token further on —
+// is an opening bracket, down where it is the matching closing one, and is otherwise kept.
+func c10aSiblingCounters(c *Ctx) {
+	mate := map[string]string{"(": ")", "{": "}", "[": "]"}
+	n := 0
+	for _, fn := range c.W.FuncsOf("parser") {
+		if isTestFunc(c.W, fn) || len(fn.Blocks) == 0 || fn.Name() == "parseCommandStatement" || fn.Name() == "getNextWord" {
+			continue
+		}
+		for _, head := range fn.Blocks {
+			if !isLoopHeader(head) {
+				continue
+			}
+			for _, in := range head.Instrs {
+				ph, isPhi := in.(*ssa.Phi)
+				if !isPhi {
+					continue
+				}
+				if bt, isB := ph.Type().Underlying().(*types.Basic); !isB || bt.Kind() != types.Int || strings.Contains(ph.Comment, "rangeindex") {
+					continue
+				}
+				pt := c.term(fn, ph)
+				var ups, downs []*ssa.BinOp
+				for i, e := range ph.Edges {
+					if !head.Dominates(head.Preds[i]) {
+						continue
+					}
+					var leaves []ssa.Value
+					phiLeaves(e, map[ssa.Value]bool{ph: true}, &leaves)
+					for _, lf := range leaves {
+						if bo, ok := lf.(*ssa.BinOp); ok {
+							switch c.term(fn, bo) {
+							case pt + "+1":
+								ups = append(ups, bo)
+							case pt + "-1":
+								downs = append(downs, bo)
+							}
+						}
+					}
+				}
+				if len(ups) == 0 || len(downs) == 0 {
+					continue // not a nesting counter
+				}
+				n++
+				cur := "$0.curToken!L" + fmt.Sprint(head.Index)
+				kindAt := func(bo *ssa.BinOp) (string, string) {
+					// the bracket kind the update stands under, and of which token
+					for _, l := range c.mustLits(fn, bo.Block()) {
+						for open, close := range mate {
+							for _, k := range []string{open, close} {
+								if strings.HasPrefix(l, "+(") && strings.HasSuffix(l, `.Type == "`+k+`")`) {
+									return k, strings.TrimSuffix(strings.TrimPrefix(l, "+("), `.Type == "`+k+`")`)
+								}
+							}
+						}
+					}
+					return "", ""
+				}
+				okAll, why := true, ""
+				opener := ""
+				for _, bo := range ups {
+					k, tok := kindAt(bo)
+					if _, isOpen := mate[k]; !isOpen || tok != cur {
+						okAll, why = false, fmt.Sprintf("the count goes up under %s.Type == %q, expected the loop's current token to be an opening bracket", pretty(tok), k)
+					}
+					opener = k
+				}
+				for _, bo := range downs {
+					k, tok := kindAt(bo)
+					if okAll && (k != mate[opener] || tok != cur) {
+						okAll, why = false, fmt.Sprintf("the count goes down under %s.Type == %q, expected the loop's current token to be %q", pretty(tok), k, mate[opener])
+					}
+				}
+				c.Check(okAll, fmt.Sprintf("%s/nesting-counter[%s]", c.W.FuncKey(fn), flagName(pt)), c.W.Pos(ph.Pos()), "the nesting count goes up at an opening bracket and down at its mate, both read from the current token", fn.Name()+": "+why+" — nested brackets end the value early or late")
+			}
+		}
+	}
+	c.Check(n >= 1, "nesting-counters/siblings", "-", fmt.Sprintf("%d nesting counters besides the argument loop's", n), "no nesting counter found besides the argument loop's")
+}
+
 func c10a(c *Ctx) {
 	c10aParenArms(c)
+	c10aSiblingCounters(c)
 	fn := c.Fn("parser.Parser.parseCommandStatement")
 	nt := c.Fn("parser.Parser.nextToken")
 	if fn == nil || nt == nil {
